@@ -162,7 +162,7 @@ def run(ck: Check):
     for (i, j) in pairs[: (len(pairs) if thorough else 300)]:
         scen.append((0.5, {i: rng.choice("ba"), j: rng.choice("ba")}, n, gdiv, None))
     # 3. keepalive values (non-dyadic too), random schedules, long runs
-    Ks = [20.0, 7.25, 0.5, 0.008, 0.3, 90.0, 1.0]
+    Ks = [20.0, 7.25, 0.5, 0.008, 0.3, 90.0, 1.0, 15, 5, 600.0, 33]   # ints as callers pass them, odd values (4.5 K not whole)
     for _ in range(4000 if thorough else 400):
         K = rng.choice(Ks)
         gdiv = rng.choice([4, 8])
